@@ -5,6 +5,8 @@ import json
 CLAIMED = {
  "C01": ("translation_validation", "5 (C01)", "verified simulation checker (Coq) on exported output; closed-set product exploration",
   "Coq theorem sim_check_sound/c01_check_sound: for each exported instance the checker accepts, the restructured hierarchy visits the original blocks in the original order for ALL decision lists, under the flat and the region-by-region walk, after each of the three stages. The instance space (all closed CFGs with <=4 blocks, generated ones up to 40 blocks, three payload types) is enumerated, not quantified by theorem; the universal statement over the pipeline is not proved."),
+ "C02": ("exploration", "5 (C02)", "exhaustive enumeration of closed CFGs up to a node bound on the implementation; Coq proofs of component totality",
+  "NOT a proof of the pipeline-level claim. The implementation is run on ALL closed CFGs with <=4 blocks (thorough: <=5 blocks, 443 400 graphs), on generated ones up to 40 blocks and on the closed CFGs of real functions from both front ends; any exception or a 10 s timeout is a violation with the graph as replay. Coq (Props/C02.v) proves totality of the components that own the anchored assertion sites: the value-table rewrite with equal arity, find_head whenever a unique un-targeted block exists, termination of the breadth-first iterators."),
  "C03": ("translation_validation", "5 (C03)", "verified structure checker (Coq) with rank certificates",
   "Coq theorem struct_check_sound: accepted instances are acyclic at every level and flat (minus declared back edges), back edges run from the latch of a loop region to its header, branching blocks are exiting blocks of head regions continuing to distinct branch regions with one common tail. Per instance; instances enumerated/generated."),
  "C04": ("translation_validation", "5 (C04)", "verified well-formedness checker (Coq)",
@@ -30,9 +32,10 @@ CLAIMED = {
 }
 NOTE = ("Trusted: Coq 8.16.1 kernel (vm_compute; no native_compute), %s. Print Assumptions of every theorem in "
         "coq/Props/%s.v: Closed under the global context.")
-TB = {"translation_validation": "extraction (ExtrOcamlBasic only), ocaml/driver.ml, harness/vh/export.py",
+TB = {"exploration": "the enumeration harness (harness/vh/gen_graphs.py, snap.py); component theorems in Coq",
+      "translation_validation": "extraction (ExtrOcamlBasic only), ocaml/driver.ml, harness/vh/export.py",
       "proof": "the fail-closed translators harness/vh/tr_*.py and the correspondence harness"}
-ENGINE = {"translation_validation": "coq-validators", "proof": "coq-models"}
+ENGINE = {"translation_validation": "coq-validators", "proof": "coq-models", "exploration": "coq-models"}
 
 props = [json.loads(l) for l in open('/verif/properties.jsonl')]
 try:
@@ -60,7 +63,7 @@ m = {"version": 1,
      "engines": [
          {"name": "coq-validators", "path": "/verif/coq/Valid", "serves_properties": sorted(p for p, v in CLAIMED.items() if v[0] == "translation_validation"),
           "kind_free_text": "Coq 8.16.1: verified validators extracted to OCaml, run on the implementation's exported output"},
-         {"name": "coq-models", "path": "/verif/coq/Model", "serves_properties": sorted(p for p, v in CLAIMED.items() if v[0] == "proof"),
+         {"name": "coq-models", "path": "/verif/coq/Model", "serves_properties": sorted(p for p, v in CLAIMED.items() if v[0] in ("proof", "exploration")),
           "kind_free_text": "Coq 8.16.1: hand-written executable models with universal theorems, tied to /repo by translators (coq/Gen) and exact correspondence runs"}],
      "checks": checks,
      "notes": "Repairs of genuine defects in /repo are separate 'fix:' commits listed in known_findings.json.",
